@@ -8,7 +8,7 @@ import coregen as cg
 import stargen as sg
 
 PROP = 'C13'
-LEAN_TARGETS = ['MorphKgc.Props.C13', 'MorphKgc.Props.C13Now', 'MorphKgc.Props.C13Fix']
+LEAN_TARGETS = ['MorphKgc.Props.C13', 'MorphKgc.Props.C13Now', 'MorphKgc.Props.C13Fix', 'MorphKgc.Props.C13Doc']
 GEN_KEYS = ['star', 'escape']
 M = 'MorphKgc.Props.C13'
 THEOREMS = [{'name': f'Props.C13.{n}', 'module': M} for n in [
@@ -24,8 +24,10 @@ THEOREMS = [{'name': f'Props.C13.{n}', 'module': M} for n in [
     {'name': 'Model.Star.expandStep_fixpoint', 'module': 'MorphKgc.Lemmas.StarExpand'},
     {'name': 'Model.Star.evalStar_relabel', 'module': 'MorphKgc.Lemmas.StarRelabel'}]
 # hypothesis-free theorems of the repaired shapes the translator reads from /repo now (Props/C13Now.lean)
-THEOREMS += [{'name': f'Props.C13.{n}', 'module': 'MorphKgc.Props.C13Now'} for n in ['C13_current_all_const', 'C13_F1_current']]
+THEOREMS += [{'name': f'Props.C13.{n}', 'module': 'MorphKgc.Props.C13Now'} for n in ['C13_current_all_const', 'C13_F1_current', 'C13_F4_no_reference_no_rows', 'C13_F4_fixed', 'C13_F4_spec', 'C13_current_no_ref_placeholder', 'C13_F4_current']]
 THEOREMS += [{'name': f'Props.C13Fix.{n}', 'module': 'MorphKgc.Props.C13Fix'} for n in ['mem_step', 'C13_expand_measure', 'settled_fixpoint', 'C13_expand_terminates', 'C13_expand_result', 'C13_normalizeDocStar_terminates', 'C13_cyclic_outside_hypotheses', 'C13_cyclic_grows', 'C13_cyclic_no_fixpoint']]
+THEOREMS += [{'name': f'Props.C13Doc.{n}', 'module': 'MorphKgc.Props.C13DocLemmas'} for n in ['C13_flatLines_of_tree', 'C13_stmtsOf_of_trees', 'C13_spec_flat_eq_doc']]
+THEOREMS += [{'name': f'Props.C13Doc.{n}', 'module': 'MorphKgc.Props.C13Doc'} for n in ['C13_doc_conditions', 'C13_doc_terminates', 'C13_doc_dup_names_counter', 'C13_document_spec_partial', 'C13_document_level_partial']]
 RULE = ('abstract RML-star documents (1-3 elementary triples maps with 0-3 predicate-object maps, classes, graph maps; 1-3 quoting maps: quoted '
         'subject, quoted object, both; with 0, 1 or 2 join conditions; quoting depth up to 3; asserted / non-asserted / untyped maps) x CSV '
         'tables of 0-6 rows with duplicate and NULL join keys and NULLs in every column, plus 12 fixed documents covering each nesting '
@@ -350,6 +352,13 @@ def run(ctx, lean, findings):
                 ctx.known(f['id'], f['what'])
             else:
                 ctx.notes.append(f'finding {f["id"]} no longer reproduces')
+    # the inputs of repaired findings run on every check (a `fixed` entry suppresses nothing)
+    for f in findings:
+        if f.get('property') == PROP and f.get('status') == 'fixed' and isinstance(f.get('replay'), dict) and f['replay'].get('doc'):
+            ctx.case(['fixed-corpus', f['id']], nontrivial=True, kind='corpus of repaired findings')
+            if replay_input(ctx, f['replay'], os.path.join(ctx.tmp, 'fx_' + f['id'])):
+                ctx.violation(f'the input of the repaired finding {f["id"]} fails again: the engine raises or its result differs from the '
+                              'RML-star generation rules', f['replay'], finding=None)
 
 
 def replay_input(ctx, inp, d):
